@@ -111,6 +111,11 @@ type Config struct {
 	NoHandshake bool
 	User        string
 	Database    string
+	// Settle is a pause before every command of the typed client API. acra's MySQL proxy lets the tail of a
+	// response overwrite the response handler of the next command (C12 finding, proposed fix
+	// 10-mysql-response-handler-race): on a tree without that fix a client that sends its next command
+	// immediately gets a result set relayed unprocessed now and then; a few milliseconds avoid it.
+	Settle time.Duration
 }
 
 // ErrTimeout marks an I/O deadline hit: the case is inconclusive, never a violation by itself.
@@ -177,6 +182,7 @@ type Session struct {
 	ServerCaps uint32
 	Greeting   Handshake
 	stmtTypes  map[uint32][]Param
+	settle     time.Duration
 }
 
 var registryOnce sync.Once
@@ -278,7 +284,7 @@ func Start(cfg Config) (*Session, error) {
 	dbTap := &tap{Conn: dbEnd}
 	ct := &tap{Conn: clientEnd}
 	s := &Session{pan: pan, clientEnd: clientEnd, dbEnd: dbEnd, acraC: acraClient, acraD: acraDB, timeout: cfg.Timeout,
-		clientTap: ct, dbTap: dbTap, stmtTypes: map[uint32][]Param{}}
+		clientTap: ct, dbTap: dbTap, stmtTypes: map[uint32][]Param{}, settle: cfg.Settle}
 	if cfg.DBHandler != nil {
 		go cfg.DBHandler(dbTap)
 	} else {
@@ -434,7 +440,12 @@ func (s *Session) SendPacket(seq byte, payload []byte) error {
 }
 
 // SendCommand sends a command packet (sequence id 0).
-func (s *Session) SendCommand(payload []byte) error { return s.SendPacket(0, payload) }
+func (s *Session) SendCommand(payload []byte) error {
+	if s.settle > 0 {
+		time.Sleep(s.settle)
+	}
+	return s.SendPacket(0, payload)
+}
 
 // ReadPacket reads one logical packet from the proxy.
 func (s *Session) ReadPacket() (Packet, error) {
